@@ -231,3 +231,111 @@ def fronts_verdicts(ck, cases, tag="fronts"):
         raise Machinery("Fronts validation run failed (%d verdicts for %d cases): %s\n%s"
                         % (len(res.records), len(cases), res.violated, res.tail))
     return {v["id"]: v for v in res.records}
+
+
+# ------------------------------------------------------------------ returned LoopTrees -> Trace_Mapping
+def _small(fr_):
+    return abs(fr_.numerator) < 2 ** 20 and fr_.denominator < 2 ** 10
+
+
+def returned_cases(ck, worlds, metrics_sets, knobs=None, detail_both=True):
+    """Run the mapper (eval_in_detail False and True) and build one Trace_Mapping case per returned row
+    of the detailed run, joined with the row of the undetailed run that has the same LoopTree."""
+    jobs, keys = [], []
+    for w in worlds:
+        for mset in metrics_sets:
+            for det in ((False, True) if detail_both else (True,)):
+                jobs.append((w, mset, knobs, det))
+                keys.append((w["id"], mset, det))
+    outs = dict(zip(keys, run_mapper(ck, jobs)))
+    cases, info = [], {}
+    for w in worlds:
+        for mset in metrics_sets:
+            rd = outs[(w["id"], mset, True)]
+            rj = outs.get((w["id"], mset, False))
+            ck.evaluations += 1
+            for r in (rd, rj):
+                if r is not None and "exception" in r:
+                    ck.impl_errors += 1
+                    if ck.impl_error_sample is None:
+                        ck.impl_error_sample = {"case": {"world": w["id"], "metrics": mset}, "traceback": r["traceback"]}
+            if "exception" in rd or (rj is not None and "exception" in rj):
+                continue
+            jrows = {}
+            if rj is not None:
+                for row in rj["rows"]:
+                    jrows.setdefault(json.dumps(row.get("nodes")), row)
+            for i, row in enumerate(rd["rows"]):
+                cid = "%d/%s/%d" % (w["id"], "+".join(mset), i)
+                nodes = row.get("nodes")
+                if nodes is None:
+                    info[cid] = {"world": w, "mset": mset, "row": row, "nodes": None, "export_error": row.get("nodes_error")}
+                    continue
+                jrow = jrows.get(json.dumps(nodes))
+                me, ml = fr(row["totals"]["energy"]), fr(row["totals"]["latency"])
+                # the undetailed run only reports the totals its metrics need; an absent total is not compared
+                je = fr(jrow["totals"]["energy"]) if jrow and "energy" in jrow["totals"] else me
+                jl = fr(jrow["totals"]["latency"]) if jrow and "latency" in jrow["totals"] else ml
+                ok_small = all(_small(x) for x in (me, ml, je, jl))
+                info[cid] = {"world": w, "mset": mset, "row": row, "jrow": jrow, "nodes": nodes,
+                             "tlc_numbers": ok_small}
+                if any(n["kind"] not in ("S", "T", "C") for n in nodes):
+                    info[cid]["unsupported"] = True
+                    continue
+                z = lambda x: [x.numerator, x.denominator] if ok_small else [0, 1]
+                cases.append({"id": cid, "world": w, "nodes": nodes,
+                              "join": {"energy": z(je), "latency": z(jl)},
+                              "model": {"energy": z(me), "latency": z(ml)}})
+    return cases, info
+
+
+def trace_mapping_verdicts(ck, cases, tag="tm"):
+    if not cases:
+        return {}
+    path = os.path.join(ck.work, "cases_%s.json" % tag)
+    with open(path, "w") as f:
+        json.dump(cases, f)
+    res = ck.tlc("Trace_Mapping", "Trace_Mapping.cfg", env={"CASES_FILE": path}, coverage=False, timeout=2400)
+    if not res.ok:
+        raise Machinery("Trace_Mapping run failed: %s\n%s" % (res.violated, res.tail))
+    v = {r["id"]: r for r in res.records}
+    missing = [c["id"] for c in cases if c["id"] not in v]
+    if missing:
+        raise Machinery("Trace_Mapping produced no verdict for %d cases (e.g. %s): the execution did not terminate\n%s"
+                        % (len(missing), missing[0], res.tail))
+    return v
+
+
+def mapper_worlds(ck, n, start, *, tolls=False):
+    rng = random.Random(4400 * ck.seed + start)
+    out = []
+    for i in range(n):
+        n_mem = 3 if i % 3 == 2 else 2
+        w = gen_microspec(rng, start + i, n_mem=n_mem, toll=(tolls and i % 2 == 0))
+        if w["istoll"].get("TOLL"):
+            # the mapper decides about Tolls through keep/may_keep too
+            w["keep"]["TOLL"] = []
+            w["maykeep"]["TOLL"] = [t for t in w["tensors"] if rng.random() < 0.8]
+        out.append(w)
+    return out
+
+
+def c31_part(ck):
+    """C31, mapper clause: on architectures with a Toll no returned mapping has the Toll as outermost holder."""
+    worlds = mapper_worlds(ck, 4 if ck.tier == "quick" else 16, 500, tolls=True)
+    worlds = [w for w in worlds if "TOLL" in w["level"]]
+    cases, info = returned_cases(ck, worlds, [("ENERGY",), ("ENERGY", "LATENCY")], detail_both=False)
+    verdicts = trace_mapping_verdicts(ck, cases, "c31")
+    ntoll = 0
+    for cid, v in verdicts.items():
+        ck.traces += 1
+        meta = info[cid]
+        if any(n["kind"] == "S" and meta["world"]["istoll"][n["mem"]] for n in meta["nodes"]):
+            ntoll += 1
+            ck.count_nontrivial(("mapper", cid))
+        if v.get("wellformed") and not v["toll"]:
+            ck.violation("C31/toll-outermost-holder-in-returned-mapping",
+                         "returned mapping %s has a Toll as the outermost holder of a tensor" % ln.short(meta["nodes"]),
+                         {"world": meta["world"], "nodes": meta["nodes"], "kind": "mapper"})
+    ck.extra["mapper_results_with_toll_nodes"] = ntoll
+    ck.extra["mapper_results_checked"] = len(verdicts)
